@@ -36,10 +36,11 @@ var commonAssumptions = []string{
 var All = []*Prop{
 	{
 		ID:    "C14",
-		Rules: []*core.Rule{rules.Classifier, rules.Recover, rules.GoError},
+		Rules: []*core.Rule{rules.Classifier, rules.Recover, rules.GoError, rules.InterruptSync, rules.UncatchableClose},
 		Explanation: "R-CLASSIFIER: in vm.exceptionFromValue (the single place where a panic payload becomes a script-catchable Exception) no case type accepts an implementer of uncatchableException (go/types assignability over every named type of the package), *Object is matched before Value, the *Object and Value cases store the matched value itself in Exception.val (SSA identity), and unknown payloads yield nil. " +
 			"R-RECOVER: for each of the recover() sites of the module and each caller of tryFunc, on the non-nil branch every exit is dominated by a re-panic of the same value, a call to handleThrow with it, or a successful classification; handleThrow re-panics what exceptionFromValue cannot convert. " +
-			"R-GOERROR: at every bridge for errors returned by host code (reflected native functions, json.Marshaler) NewGoError(err) is dominated by the false edges of err.(*Exception) and isUncatchableException(err), and the *Exception branch re-panics err itself.",
+			"R-GOERROR: at every bridge for errors returned by host code (reflected native functions, json.Marshaler) NewGoError(err) is dominated by the false edges of err.(*Exception) and isUncatchableException(err), and the *Exception branch re-panics err itself. " +
+			"R-INTERRUPTSYNC / R-UNCATCHABLECLOSE (see C15): the interrupt flag is cleared only by leaveAbrupt/the public API, so it stays raised while the InterruptedError unwinds and no script catch/finally/iterator-return code can run.",
 		Technique:  "type-switch assignability over go/types, SSA value identity, must-pass-through on recover handlers with controlling-condition classification",
 		DesignRef:  "DESIGN.md section 4, C14",
 		NotCovered: "stack-trace contents and the position of the top frame, errors.Is/As chains through GoError (value-level), every sequence of frame kinds, StackOverflowError observability through natives that flatten the error into a new one",
